@@ -47,6 +47,8 @@ pub enum Stmt {
     /// command-API task awaiting a request made through the old capability API (a capability clone
     /// captured by the task); on hosts without capabilities an ordinary request
     CapRequest(Leaf),
+    /// a request future created and dropped without being polled: nothing is sent, nothing is kept
+    MakeAndDrop(Leaf),
     /// `n` events in a row without an await point in between (many outputs in one poll)
     Burst { n: u8, tag: u32 },
     Notify(Leaf),
